@@ -165,7 +165,22 @@ Definition here_but_not_below (n : node) (qt : rtype) : nanswer :=
   | None => query_rrsets (n_rrsets n) qt
   end.
 
-(* query_node / query_node_here_and_below / query_children, walk disabled *)
+(* query_children, walk disabled: exact child, else the `*` child, else NXDOMAIN.
+   [rec] is the continuation on the exact child (query_node with the rest of
+   the name). *)
+Definition query_children (rec : node -> nanswer) (cs : list (label * node)) (l : label) (qt : rtype) : nanswer :=
+  match find_child l cs with
+  | Some c => rec c
+  | None =>
+      if children_exact_then_wildcard then
+        match find_child wild_label cs with
+        | Some w => here_but_not_below w qt
+        | None => NA_nx_domain
+        end
+      else NA_nx_domain
+  end.
+
+(* query_node + query_node_here_and_below *)
 Fixpoint query_node (n : node) (q : name) (qt : rtype) : nanswer :=
   match q with
   | [] => here_but_not_below n qt
@@ -173,9 +188,301 @@ Fixpoint query_node (n : node) (q : name) (qt : rtype) : nanswer :=
       match n_special n with
       | Some (Cut c) => NA_authority c
       | Some NxDomain =>
-          if nxdomain_marker_stops_descent then NA_nx_domain else query_children_of n l q' qt
-      | _ => query_children_of n l q' qt
+          if nxdomain_marker_stops_descent then NA_nx_domain
+          else query_children (fun c => query_node c q' qt) (n_children n) l qt
+      | _ => query_children (fun c => query_node c q' qt) (n_children n) l qt
       end
-  end
-with query_children_of (n : node) (l : label) (q' : name) (qt : rtype) {struct q'} : nanswer :=
-  NA_nx_domain.
+  end.
+
+Definition query_apex (z : node) (q : name) (qt : rtype) : nanswer :=
+  match q with
+  | [] => query_rrsets (n_rrsets z) qt
+  | l :: q' => query_children (fun c => query_node c q' qt) (n_children z) l qt
+  end.
+
+Definition get_soa (z : node) : option rr :=
+  match get_rrset soa_type (n_rrsets z) with
+  | Some r => match rs_data r with d :: _ => Some (mkRr (rs_ttl r) d) | [] => None end
+  | None => None
+  end.
+
+Definition into_answer (z : node) (a : nanswer) : answer :=
+  let auth :=
+    if na_add_soa a && soa_added_when_flag_and_present then
+      match get_soa z with
+      | Some s => Some (mkAuth [] (Some s) None None)
+      | None => na_auth a
+      end
+    else na_auth a in
+  mkAnswer (na_rcode a) (na_auth_flag a) (na_content a) auth (na_addl a).
+
+Definition query (z : node) (q : name) (qt : rtype) : answer := into_answer z (query_apex z q qt).
+
+(* ------------------------------------------------------------------ WriteNode (write.rs) *)
+Definition is_apex (p : name) : bool := match p with [] => true | _ => false end.
+
+Definition check_nx_domain (n : node) : node :=
+  match n_special n with
+  | Some NxDomain =>
+      if negb (rrsets_is_empty (n_rrsets n)) && nx_marked_clears_when_nonempty then set_special None n else n
+  | None =>
+      if rrsets_is_empty (n_rrsets n) && nx_unmarked_sets_when_empty then set_special (Some NxDomain) n else n
+  | _ => n
+  end.
+
+Definition make_regular_node (n : node) : node := check_nx_domain (set_special None n).
+
+(* a WriteNode is reached from the root by update_child along [p]; nodes created
+   on the way are made regular *)
+Definition w_node (p : name) (f : node -> node) (z : node) : node := with_path make_regular_node p f z.
+
+Definition w_update_rrset (p : name) (r : rrset) (z : node) : node :=
+  w_node p (fun n => let n' := map_rrsets (update_rrsets r) n in if is_apex p then n' else check_nx_domain n') z.
+Definition w_remove_rrset (p : name) (t : rtype) (z : node) : node :=
+  w_node p (fun n => let n' := map_rrsets (remove_rtype t) n in if is_apex p then n' else check_nx_domain n') z.
+Definition w_make_regular (p : name) (z : node) : node :=
+  w_node p (fun n => if is_apex p then n else make_regular_node n) z.
+Definition w_make_zone_cut (p : name) (c : zcut) (z : node) : outcome node :=
+  if is_apex p then Err E_NotAllowed else Ok (w_node p (set_special (Some (Cut c))) z).
+Definition w_make_cname (p : name) (c : rr) (z : node) : outcome node :=
+  if is_apex p then Err E_NotAllowed else Ok (w_node p (set_special (Some (Cname c))) z).
+
+(* ZoneNode::remove_all / ZoneApex::remove_all *)
+Fixpoint remove_all_node (n : node) : node :=
+  let 'Node _ _ cs := n in
+  Node [] None ((fix go (cs : list (label * node)) : list (label * node) :=
+                   match cs with [] => [] | (l, c) :: cs' => (l, remove_all_node c) :: go cs' end) cs).
+Definition w_remove_all (p : name) (z : node) : node := w_node p remove_all_node z.
+
+(* rollback of an uncommitted version: every versioned value returns to the
+   committed one; nodes inserted into the children maps stay, bare *)
+Fixpoint graft (w c : node) {struct w} : node :=
+  let 'Node _ _ wcs := w in
+  let 'Node r s ccs := c in
+  Node r s ((fix go (wcs : list (label * node)) (ccs : list (label * node)) : list (label * node) :=
+               match wcs with
+               | [] => ccs
+               | (l, wc) :: wcs' => go wcs' (upsert_child l (fun _ cc => graft wc cc) ccs)
+               end) wcs ccs).
+
+(* ------------------------------------------------------------------ ZoneUpdater (update.rs) *)
+Definition rrset_data_at (z : node) (p : name) (t : rtype) : list rdata :=
+  match node_at z p with
+  | Some n => match get_rrset t (n_rrsets n) with Some r => rs_data r | None => [] end
+  | None => []
+  end.
+
+Definition u_add (p : name) (t : rtype) (ttl : N) (d : rdata) (z : node) : node :=
+  let z1 := w_node p (fun n => n) z in
+  w_update_rrset p (mkRrset t ttl (d :: rrset_data_at z1 p t)) z1.
+
+Definition u_del (p : name) (t : rtype) (ttl : N) (d : rdata) (z : node) : node :=
+  let z1 := w_node p (fun n => n) z in
+  let keep := filter (fun x => negb (rdata_eqb x d)) (rrset_data_at z1 p t) in
+  match keep with
+  | [] => w_remove_rrset p t z1
+  | _ => w_update_rrset p (mkRrset t ttl keep) z1
+  end.
+
+Definition u_soa (ttl : N) (d : rdata) (z : node) : node := w_update_rrset [] (mkRrset soa_type ttl [d]) z.
+
+(* ------------------------------------------------------------------ parsed::Zonefile *)
+Record zonefile := mkZf { zf_normal : list (name * list rrset);
+                          zf_cuts : list (name * (option rrset * option rrset));
+                          zf_cnames : list (name * rr) }.
+Definition zf_empty := mkZf [] [] [].
+
+Fixpoint alookup {A} (k : name) (l : list (name * A)) : option A :=
+  match l with [] => None | (k', v) :: l' => if name_eqb k' k then Some v else alookup k l' end.
+Fixpoint aupsert {A} (k : name) (dflt : A) (f : A -> A) (l : list (name * A)) : list (name * A) :=
+  match l with
+  | [] => [(k, f dflt)]
+  | (k', v) :: l' => if name_eqb k' k then (k', f v) :: l' else (k', v) :: aupsert k dflt f l'
+  end.
+
+Definition is_glue (t : rtype) : bool := existsb (N.eqb t) glue_types.
+
+(* Rrset::push_record *)
+Definition push_record (ttl : N) (d : rdata) (r : rrset) : rrset :=
+  mkRrset (rs_type r) (N.min (rs_ttl r) ttl) (rs_data r ++ [d]).
+Definition push_opt (t : rtype) (ttl : N) (d : rdata) (o : option rrset) : option rrset :=
+  match o with Some r => Some (push_record ttl d r) | None => Some (mkRrset t ttl [d]) end.
+(* Normal::insert *)
+Definition normal_insert (t : rtype) (ttl : N) (d : rdata) (l : list rrset) : list rrset :=
+  match get_rrset t l with
+  | Some r => set_rrset (push_record ttl d r) l
+  | None => l ++ [mkRrset t ttl [d]]
+  end.
+
+Definition zf_insert (g : grec) (zf : zonefile) : outcome zonefile :=
+  let o := g_owner g in let t := g_type g in
+  if ((t =? rt_ns) || (t =? rt_ds)) && negb (is_apex o) then
+    match alookup o (zf_normal zf) with
+    | Some rs => if existsb (fun r => negb (is_glue (rs_type r))) rs then Err E_IllegalZoneCut else
+        match alookup o (zf_cnames zf) with
+        | Some _ => Err E_IllegalZoneCut
+        | None => Ok (mkZf (zf_normal zf)
+                           (aupsert o (None, None) (fun c => if t =? rt_ns then (push_opt t (g_ttl g) (g_data g) (fst c), snd c)
+                                                             else (fst c, push_opt t (g_ttl g) (g_data g) (snd c))) (zf_cuts zf))
+                           (zf_cnames zf))
+        end
+    | None =>
+        match alookup o (zf_cnames zf) with
+        | Some _ => Err E_IllegalZoneCut
+        | None => Ok (mkZf (zf_normal zf)
+                           (aupsert o (None, None) (fun c => if t =? rt_ns then (push_opt t (g_ttl g) (g_data g) (fst c), snd c)
+                                                             else (fst c, push_opt t (g_ttl g) (g_data g) (snd c))) (zf_cuts zf))
+                           (zf_cnames zf))
+        end
+    end
+  else if t =? rt_cname then
+    match alookup o (zf_normal zf) with
+    | Some _ => Err E_IllegalCname
+    | None =>
+        match alookup o (zf_cuts zf) with
+        | Some _ => Err E_IllegalCname
+        | None =>
+            match alookup o (zf_cnames zf) with
+            | Some _ => Err E_MultipleCnames
+            | None => Ok (mkZf (zf_normal zf) (zf_cuts zf) (zf_cnames zf ++ [(o, mkRr (g_ttl g) (g_data g))]))
+            end
+        end
+    end
+  else
+    match (if is_glue t then None else alookup o (zf_cuts zf)) with
+    | Some _ => Err E_IllegalRecord
+    | None =>
+        match alookup o (zf_cnames zf) with
+        | Some _ => Err E_IllegalRecord
+        | None => Ok (mkZf (aupsert o [] (normal_insert t (g_ttl g) (g_data g)) (zf_normal zf)) (zf_cuts zf) (zf_cnames zf))
+        end
+    end.
+
+(* Owners<Normal>::collect_glue *)
+Definition collect_glue (normal : list (name * list rrset)) (tgt : name) : list grec :=
+  match alookup tgt normal with
+  | Some rs => flat_map (fun r => if is_glue (rs_type r) then map (fun d => mkG tgt (rs_type r) (rs_ttl r) d) (rs_data r) else []) rs
+  | None => []
+  end.
+Definition glue_for (normal : list (name * list rrset)) (ns : rrset) : list grec :=
+  flat_map (fun d => match rd_tgt d with Some t => collect_glue normal t | None => [] end) (rs_data ns).
+
+(* TryFrom<Zonefile> for ZoneBuilder: cuts, then CNAMEs, then normal records.
+   The bool is false when a ContextError was recorded (then the conversion fails
+   as a whole). *)
+Definition zf_build (zf : zonefile) : node * bool :=
+  let s1 := fold_left (fun (acc : node * bool) (e : name * (option rrset * option rrset)) =>
+              let '(z, ok) := acc in
+              match fst (snd e) with
+              | None => (z, false)
+              | Some ns => match insert_zone_cut (fst e) ns (snd (snd e)) (glue_for (zf_normal zf) ns) z with
+                           | Ok z' => (z', ok) | _ => (z, false) end
+              end) (zf_cuts zf) (empty_node, true) in
+  let s2 := fold_left (fun (acc : node * bool) (e : name * rr) =>
+              let '(z, ok) := acc in
+              match insert_cname (fst e) (snd e) z with Ok z' => (z', ok) | _ => (z, false) end) (zf_cnames zf) s1 in
+  fold_left (fun (acc : node * bool) (e : name * list rrset) =>
+              let '(z, ok) := acc in
+              (fold_left (fun z r => insert_rrset (fst e) r z) (snd e) z, ok)) (zf_normal zf) s2.
+
+(* a flat record list -> zone, errors of single records skip the record *)
+Definition zf_of_records (rs : list grec) : zonefile :=
+  fold_left (fun zf g => match zf_insert g zf with Ok zf' => zf' | _ => zf end) rs zf_empty.
+Definition build (rs : list grec) : node := fst (zf_build (zf_of_records rs)).
+
+(* ------------------------------------------------------------------ operation sequences (the T2 driver language) *)
+Inductive op :=
+| OBRr (p : name) (r : rrset) | OBCut (c : zcut) | OBCname (p : name) (c : rr)
+| OZRec (g : grec)
+| OUNew | OUAdd (g : grec) | OUDel (g : grec) | OUDelAll | OUBatchDel | OUBatchAdd (ttl : N) (d : rdata) | OUFin (ttl : N) (d : rdata) | OUDrop
+| OWOpen | OWRr (p : name) (r : rrset) | OWRm (p : name) (t : rtype) | OWCut (p : name) (c : zcut) | OWCname (p : name) (c : rr)
+| OWRegular (p : name) | OWRemoveAll (p : name) | OWCommit | OWDrop.
+
+Definition is_history (o : op) : bool :=
+  match o with OBRr _ _ | OBCut _ | OBCname _ _ | OZRec _ => false | _ => true end.
+
+Record state := mkSt { s_builder : node; s_zf : option zonefile; s_built : bool;
+                       s_comm : node;            (* the published version *)
+                       s_work : option node;     (* the version being written, if a writer is open *)
+                       s_fin : bool;             (* the ZoneUpdater has seen Finished *)
+                       s_errs : list (N * N) }.
+Definition init_state := mkSt empty_node None false empty_node None false [].
+
+Definition add_err (i e : N) (s : state) : state :=
+  mkSt (s_builder s) (s_zf s) (s_built s) (s_comm s) (s_work s) (s_fin s) (s_errs s ++ [(i, e)]).
+Definition set_work (w : option node) (s : state) : state :=
+  mkSt (s_builder s) (s_zf s) (s_built s) (s_comm s) w (s_fin s) (s_errs s).
+
+Definition finish_build (i : N) (s : state) : state :=
+  if s_built s then s else
+  match s_zf s with
+  | Some zf => let '(z, ok) := zf_build zf in
+               if ok then mkSt (s_builder s) None true z None false (s_errs s)
+               else mkSt (s_builder s) None true (s_builder s) None false (s_errs s ++ [(i, E_ZoneErrors)])
+  | None => mkSt (s_builder s) None true (s_builder s) None false (s_errs s)
+  end.
+
+(* an update applied by a live ZoneUpdater / WriteNode *)
+Definition on_work (f : node -> node) (s : state) : state :=
+  match s_work s with Some w => set_work (Some (f w)) s | None => s end.
+Definition commit (reopen : bool) (s : state) : state :=
+  match s_work s with
+  | Some w => mkSt (s_builder s) (s_zf s) (s_built s) w (if reopen then Some w else None) (s_fin s) (s_errs s)
+  | None => s
+  end.
+Definition rollback (s : state) : state :=
+  match s_work s with
+  | Some w => mkSt (s_builder s) (s_zf s) (s_built s) (graft w (s_comm s)) None (s_fin s) (s_errs s)
+  | None => s
+  end.
+Definition set_fin (b : bool) (s : state) : state :=
+  mkSt (s_builder s) (s_zf s) (s_built s) (s_comm s) (s_work s) b (s_errs s).
+
+Definition step (i : N) (s0 : state) (o : op) : state :=
+  let s := if is_history o then finish_build i s0 else s0 in
+  match o with
+  | OBRr p r => mkSt (insert_rrset p r (s_builder s)) (s_zf s) (s_built s) (s_comm s) (s_work s) (s_fin s) (s_errs s)
+  | OBCut c => match insert_zone_cut (c_name c) (c_ns c) (c_ds c) (c_glue c) (s_builder s) with
+               | Ok b => mkSt b (s_zf s) (s_built s) (s_comm s) (s_work s) (s_fin s) (s_errs s)
+               | Err e => add_err i e s | _ => s end
+  | OBCname p c => match insert_cname p c (s_builder s) with
+                   | Ok b => mkSt b (s_zf s) (s_built s) (s_comm s) (s_work s) (s_fin s) (s_errs s)
+                   | Err e => add_err i e s | _ => s end
+  | OZRec g => let zf := match s_zf s with Some zf => zf | None => zf_empty end in
+               match zf_insert g zf with
+               | Ok zf' => mkSt (s_builder s) (Some zf') (s_built s) (s_comm s) (s_work s) (s_fin s) (s_errs s)
+               | Err e => add_err i e (mkSt (s_builder s) (Some zf) (s_built s) (s_comm s) (s_work s) (s_fin s) (s_errs s))
+               | _ => s end
+  | OUNew => set_fin false (set_work (Some (s_comm s)) s)
+  | OUAdd g => if s_fin s then add_err i E_Finished s else on_work (u_add (g_owner g) (g_type g) (g_ttl g) (g_data g)) s
+  | OUDel g => if s_fin s then add_err i E_Finished s else on_work (u_del (g_owner g) (g_type g) (g_ttl g) (g_data g)) s
+  | OUDelAll => if s_fin s then add_err i E_Finished s else on_work (w_remove_all []) s
+  | OUBatchDel => if s_fin s then add_err i E_Finished s else commit true s
+  | OUBatchAdd ttl d => if s_fin s then add_err i E_Finished s else on_work (u_soa ttl d) s
+  | OUFin ttl d => if s_fin s then add_err i E_Finished s else set_fin true (commit false (on_work (u_soa ttl d) s))
+  | OUDrop => set_fin false (rollback s)
+  | OWOpen => set_work (Some (s_comm s)) s
+  | OWRr p r => on_work (w_update_rrset p r) s
+  | OWRm p t => on_work (w_remove_rrset p t) s
+  | OWCut p c => match s_work s with
+                 | Some w => match w_make_zone_cut p c w with Ok w' => set_work (Some w') s | Err e => add_err i e s | _ => s end
+                 | None => s end
+  | OWCname p c => match s_work s with
+                   | Some w => match w_make_cname p c w with Ok w' => set_work (Some w') s | Err e => add_err i e s | _ => s end
+                   | None => s end
+  | OWRegular p => on_work (w_make_regular p) s
+  | OWRemoveAll p => on_work (w_remove_all p) s
+  | OWCommit => commit false s
+  | OWDrop => rollback s
+  end.
+
+Fixpoint run_from (i : N) (s : state) (ops : list op) : state :=
+  match ops with
+  | [] => rollback (finish_build i s)       (* whatever is still open is dropped *)
+  | o :: ops' => run_from (i + 1) (step i s o) ops'
+  end.
+Definition run_ops (ops : list op) : state := run_from 0 init_state ops.
+
+(* what the driver calls *)
+Definition c08_run (ops : list op) : node * list (N * N) := let s := run_ops ops in (s_comm s, s_errs s).
+Definition c08_query (z : node) (q : name) (qt : rtype) : answer := query z q qt.
